@@ -256,6 +256,14 @@ Fixpoint nops (lvl : nat) (e : expr) : nat :=
   end.
 Fixpoint nu (e : expr) : nat := match e with EUnion a _ => S (nu a) | _ => 0 end.
 
+Section AB.
+(** [ab = false]: steps written in full; [ab = true]: abbreviated steps and [//] *)
+Variable ab : bool.
+Local Notation rend := (Render.rend ab).
+Local Notation rend_step := (Render.rend_step ab).
+Local Notation join := (join_steps ab (Render.rend_step ab)).
+Local Notation lead := (lead_steps ab (Render.rend_step ab)).
+
 Definition A (e : expr) (lvl : nat) : Prop := forall f X, fol lvl X = true ->
   Nb lvl (length (rend lvl e)) <= f -> pb f lvl (rend lvl e ++ X) = Some (e, X).
 Definition C (e : expr) (lvl : nat) : Prop := forall f X, fol (S lvl) X = true ->
@@ -286,10 +294,10 @@ Lemma rend_unfold lvl e : rend lvl e =
     | ENum s => [TNumber s]
     | EVar q => [TVar q]
     | ECall q args => qname_toks q ++ TLPar :: sep_by TComma (rend 0) args ++ [TRPar]
-    | EPath abs steps => (if abs then [TSlash] else []) ++ sep_by TSlash rend_step steps
+    | EPath abs steps => if abs then lead steps else join steps
     | EFilter e0 preds steps =>
         (if simple_primary e0 then rend 0 e0 else parens (rend 0 e0)) ++ brackets (rend 0) preds
-        ++ match steps with [] => [] | _ => TSlash :: sep_by TSlash rend_step steps end
+        ++ match steps with [] => [] | _ => lead steps end
     end in
   if Nat.ltb (level e) lvl || bare_root e then parens body else body.
 Proof. destruct e; reflexivity. Qed.
@@ -417,7 +425,7 @@ Proof.
 Qed.
 
 Definition first_ok (t : tok) : bool :=
-  match t with TLPar | TLiteral _ | TNumber _ | TVar _ | TName _ | TSlash => true | _ => false end.
+  match t with TLPar | TLiteral _ | TNumber _ | TVar _ | TName _ | TSlash | TSlashSlash | TStar | TAt | TDot | TDotDot => true | _ => false end.
 
 Lemma U_from_D e : 7 <= level e -> (exists t r, rend 7 e = t :: r /\ first_ok t = true) -> D e -> U e.
 Proof.
@@ -493,28 +501,79 @@ Proof.
         destruct t2; try reflexivity; congruence.
 Qed.
 
-Definition stepfol (X : list tok) : Prop := match X with TSlash :: _ => True | _ => fol 8 X = true end.
+Definition stepfol (X : list tok) : Prop :=
+  match X with TSlash :: _ | TSlashSlash :: _ => True | _ => fol 8 X = true end.
 Definition Qs (s : stp) : Prop := forall f X, stepfol X ->
   Ns (length (rend_step s)) <= f -> pst f (rend_step s ++ X) = Some (s, X).
 
-Lemma relpath_ok steps : steps <> [] -> Forall Qs steps -> forall f X, fol 8 X = true ->
-  Nr (length (sep_by TSlash rend_step steps)) <= f ->
-  prl f (sep_by TSlash rend_step steps ++ X) = Some (steps, X).
+Lemma is_dos_eq d : is_dos d = true -> d = dos_step.
+Proof. destruct d as [[] [] [|]|]; try discriminate. reflexivity. Qed.
+
+Lemma join_one (s : stp) : join [s] = rend_step s.
+Proof. reflexivity. Qed.
+Lemma join_two (s d : stp) : join [s; d] = rend_step s ++ TSlash :: join [d].
+Proof. reflexivity. Qed.
+Lemma join_three (s d x : stp) r : join (s :: d :: x :: r) =
+  if ab && is_dos d then rend_step s ++ TSlashSlash :: join (x :: r) else rend_step s ++ TSlash :: join (d :: x :: r).
+Proof. reflexivity. Qed.
+
+Lemma relpath_ok n : forall steps, length steps <= n -> steps <> [] -> Forall Qs steps -> forall f X, fol 8 X = true ->
+  Nr (length (join steps)) <= f -> prl f (join steps ++ X) = Some (steps, X).
 Proof.
-  induction steps as [|s r IH]; intros Hne HQ f X HX Hf; [congruence|].
-  inversion HQ as [|? ? Hs HQr]; subst.
+  induction n as [|n IH]; intros steps Hn Hne HQ f X HX Hf; [destruct steps; [congruence|simpl in Hn; lia]|].
+  destruct steps as [|s r]; [congruence|]. inversion HQ as [|? ? Hs HQr]; subst.
   destruct f as [|g]; [unfold Nr in Hf; lia|]. rewrite prl_S.
-  destruct r as [|s2 r].
-  - rewrite sep_by_one in *. rewrite Hs; [|destruct X as [|[] X]; simpl; trivial|unfold Nr, Ns in *; lia].
+  destruct r as [|d r].
+  - rewrite join_one in *. rewrite Hs; [|destruct X as [|[] X]; simpl; trivial|unfold Nr, Ns in *; lia].
     apply fol_quiet in HX. destruct X as [|[] X]; try reflexivity; contradiction.
-  - rewrite sep_by_cons2 in *. rewrite app_length in Hf. cbn [length] in Hf. rewrite <- app_assoc. cbn [app].
-    rewrite Hs; [|exact I|unfold Nr, Ns in *; lia].
-    rewrite IH; [reflexivity|discriminate|exact HQr|exact HX|unfold Nr in *; lia].
+  - assert (Hslash : forall rest, rest = d :: r -> Nr (length (rend_step s ++ TSlash :: join rest)) <= S g ->
+              match pst g ((rend_step s ++ TSlash :: join rest) ++ X) with
+              | None => None
+              | Some (s0, r0) =>
+                  match r0 with
+                  | TSlash :: r2 => match prl g r2 with Some (ss, r3) => Some (s0 :: ss, r3) | None => None end
+                  | TSlashSlash :: r2 => match prl g r2 with Some (ss, r3) => Some (s0 :: dos_step :: ss, r3) | None => None end
+                  | _ => Some ([s0], r0)
+                  end
+              end = Some (s :: rest, X)).
+    { intros rest -> Hf'. rewrite app_length in Hf'. cbn [length] in Hf'. rewrite <- app_assoc. cbn [app].
+      rewrite Hs; [|exact I|unfold Nr, Ns in *; lia].
+      rewrite (IH (d :: r)); [reflexivity|simpl in *; lia|discriminate|exact HQr|exact HX|unfold Nr in *; lia]. }
+    destruct r as [|x r].
+    + rewrite join_two in *. now apply Hslash.
+    + rewrite join_three in *. destruct (ab && is_dos d) eqn:Ed; [|now apply Hslash].
+      apply andb_prop in Ed. destruct Ed as [_ Ed]. apply is_dos_eq in Ed. subst d.
+      rewrite app_length in Hf. cbn [length] in Hf. rewrite <- app_assoc. cbn [app].
+      rewrite Hs; [|exact I|unfold Nr, Ns in *; lia].
+      inversion HQr as [|? ? _ HQx]; subst.
+      rewrite (IH (x :: r)); [reflexivity|simpl in *; lia|discriminate|exact HQx|exact HX|unfold Nr in *; lia].
 Qed.
 
 (** ** first tokens *)
-Lemma rend_step_head s : exists n r, rend_step s = TName n :: r.
-Proof. destruct s as [a t ps|[[p|] n] args]; cbn [rend_step qname_toks app]; eauto. Qed.
+Definition step_first (t : tok) : bool := match t with TName _ | TStar | TAt | TDot | TDotDot => true | _ => false end.
+
+Lemma rend_test_head t : exists x r, rend_test t = x :: r /\ step_first x = true.
+Proof. destruct t; cbn [rend_test]; eauto. Qed.
+
+Lemma rend_step_head s : exists t r, rend_step s = t :: r /\ step_first t = true.
+Proof.
+  destruct s as [a t ps|[[p|] n] args]; cbn [Render.rend_step qname_toks app]; eauto.
+  destruct (rend_test_head t) as (x & r & Hx & Hfx).
+  destruct ab; [|eauto]. destruct a; eauto; try (rewrite Hx; cbn [app]; eauto);
+    destruct t; eauto; destruct ps; eauto.
+Qed.
+
+Lemma join_head s ss : exists t r, join (s :: ss) = t :: r /\ step_first t = true.
+Proof.
+  destruct (rend_step_head s) as (t & r & Hs & Ht).
+  destruct ss as [|d [|x ss]]; [rewrite join_one|rewrite join_two|rewrite join_three; destruct (ab && is_dos d)];
+    rewrite Hs; cbn [app]; eauto.
+Qed.
+
+Lemma lead_head steps : exists t r, lead steps = t :: r /\ (t = TSlash \/ t = TSlashSlash).
+Proof.
+  unfold lead_steps. destruct steps as [|d [|x r]]; eauto. destruct (ab && is_dos d); eauto.
+Qed.
 
 Lemma rend_head e : wf e = true -> forall lvl, exists t r, rend lvl e = t :: r /\
   (first_ok t = true \/ (t = TMinus /\ lvl <= 6)).
@@ -534,11 +593,12 @@ Proof.
     destruct Ht as [Ht|[_ Hl]]; [now left|lia].
   - eauto. - eauto. - eauto.
   - (* ECall *) destruct q as [[p|] n]; cbn [qname_toks app]; eauto.
-  - (* EPath *) destruct abs; cbn [app]; [eauto|].
-    simpl in Hw. apply andb_prop in Hw. destruct Hw as [_ Hw]. simpl in Hw.
-    destruct steps as [|s ss]; [discriminate|].
-    destruct (rend_step_head s) as (n & r & Hs).
-    destruct ss; [rewrite sep_by_one|rewrite sep_by_cons2]; rewrite Hs; cbn [app]; eauto.
+  - (* EPath *) destruct abs.
+    + destruct (lead_head steps) as (t0 & r & -> & [->| ->]); eauto.
+    + simpl in Hw. apply andb_prop in Hw. destruct Hw as [_ Hw]. simpl in Hw.
+      destruct steps as [|s ss]; [discriminate|].
+      destruct (join_head s ss) as (t0 & r & -> & Ht). exists t0, r. split; [reflexivity|left].
+      destruct t0; try discriminate; reflexivity.
   - (* EFilter *) destruct (simple_primary e0) eqn:Es; [|unfold parens; cbn [app]; eauto].
     destruct e0; try discriminate; rewrite rend_unfold; cbv zeta; cbn [level Nat.ltb Nat.leb orb bare_root app]; eauto.
     destruct q as [[p|] n]; cbn [qname_toks app]; eauto.
@@ -566,13 +626,66 @@ Proof. destruct X as [|[] X]; simpl; trivial; discriminate. Qed.
 Lemma stepfol_nt_ok X : stepfol X -> nt_ok X.
 Proof. destruct X as [|[] X]; simpl; trivial; discriminate. Qed.
 
+Definition child_ok (Y : list tok) : Prop :=
+  match Y with TLPar :: _ | TColon :: _ | TColonColon :: _ => False | _ => True end.
+Lemma stepfol_child_ok X : stepfol X -> child_ok X.
+Proof. destruct X as [|[] X]; simpl; trivial; discriminate. Qed.
+Lemma child_ok_nt_ok Y : child_ok Y -> nt_ok Y.
+Proof. destruct Y as [|[] Y]; simpl; tauto. Qed.
+
+(** after the axis (explicit, [@], or none): node test and predicates *)
+Definition with_test_ (g : nat) (a : axis) (r : list tok) : option (stp * list tok) :=
+  match parse_nodetest false r with
+  | None => None
+  | Some (t, r2) => match ppr g r2 with Some (preds, r3) => Some (SAxis a t preds, r3) | None => None end
+  end.
+
+Lemma with_test_ok g a t preds X : Forall (fun p => A p 0) preds -> stepfol X ->
+  Npr (length (brackets (rend 0) preds)) <= g ->
+  with_test_ g a (rend_test t ++ brackets (rend 0) preds ++ X) = Some (SAxis a t preds, X).
+Proof.
+  intros HP HX Hg. unfold with_test_. rewrite parse_nodetest_rend.
+  - rewrite preds_ok; [reflexivity|exact HP|apply stepfol_no_lbr; exact HX|exact Hg].
+  - destruct preds as [|p ps]; [apply stepfol_nt_ok; exact HX|rewrite brackets_cons; exact I].
+Qed.
+
+Lemma pst_explicit g a r : pst (S g) (TName (axis_name a) :: TColonColon :: r) = with_test_ g a r.
+Proof. rewrite pst_S. cbv zeta. cbn [kw]. rewrite axis_of_name_axis_name. reflexivity. Qed.
+Lemma pst_at g r : pst (S g) (TAt :: r) = with_test_ g Attribute r.
+Proof. reflexivity. Qed.
+(** the implicit child axis: a node test that is followed by neither [(], [:] nor [::] *)
+Lemma pst_implicit g t Y : child_ok Y -> pst (S g) (rend_test t ++ Y) = with_test_ g Child (rend_test t ++ Y).
+Proof.
+  intros HY. destruct t; cbn [rend_test app]; rewrite pst_S; cbv zeta; try reflexivity.
+  - (* p:x *) destruct Y as [|[] Y]; simpl in HY; try contradiction; reflexivity.
+  - (* x *) destruct Y as [|[] Y]; simpl in HY; try contradiction; reflexivity.
+Qed.
+
 Lemma step_axis a t preds : Forall (fun p => A p 0) preds -> Qs (SAxis a t preds).
 Proof.
-  intros HP f X HX Hf. cbn [rend_step] in *. cbn [length] in Hf. rewrite app_length in Hf.
-  destruct f as [|g]; [unfold Ns in Hf; lia|]. rewrite pst_S. cbv zeta. cbn [app kw].
-  rewrite axis_of_name_axis_name. rewrite <- app_assoc. rewrite parse_nodetest_rend.
-  - rewrite preds_ok; [reflexivity|exact HP|apply stepfol_no_lbr; exact HX|unfold Ns, Npr in *; lia].
-  - destruct preds as [|p ps]; [apply stepfol_nt_ok; exact HX|rewrite brackets_cons; exact I].
+  intros HP f X HX Hf.
+  assert (Hexp : forall f, Ns (length (TName (axis_name a) :: TColonColon :: rend_test t ++ brackets (rend 0) preds)) <= f ->
+            pst f ((TName (axis_name a) :: TColonColon :: rend_test t ++ brackets (rend 0) preds) ++ X) = Some (SAxis a t preds, X)).
+  { intros f0 Hf0. cbn [length app] in *. rewrite app_length in Hf0.
+    destruct f0 as [|g]; [unfold Ns in Hf0; lia|]. rewrite pst_explicit. rewrite <- app_assoc.
+    apply with_test_ok; [exact HP|exact HX|unfold Ns, Npr in *; lia]. }
+  assert (Himp : forall f, Ns (length (rend_test t ++ brackets (rend 0) preds)) <= f ->
+            pst f ((rend_test t ++ brackets (rend 0) preds) ++ X) = Some (SAxis Child t preds, X)).
+  { intros f0 Hf0. rewrite app_length in Hf0.
+    destruct f0 as [|g]; [unfold Ns in Hf0; lia|]. rewrite <- app_assoc. rewrite pst_implicit.
+    - apply with_test_ok; [exact HP|exact HX|unfold Ns, Npr in *; lia].
+    - destruct preds as [|p ps]; [apply stepfol_child_ok; exact HX|rewrite brackets_cons; exact I]. }
+  assert (Hat : forall f, Ns (length (TAt :: rend_test t ++ brackets (rend 0) preds)) <= f ->
+            pst f ((TAt :: rend_test t ++ brackets (rend 0) preds) ++ X) = Some (SAxis Attribute t preds, X)).
+  { intros f0 Hf0. cbn [length app] in *. rewrite app_length in Hf0.
+    destruct f0 as [|g]; [unfold Ns in Hf0; lia|]. rewrite pst_at. rewrite <- app_assoc.
+    apply with_test_ok; [exact HP|exact HX|unfold Ns, Npr in *; lia]. }
+  cbn [Render.rend_step] in *. cbv zeta in *. destruct ab; [|now apply Hexp].
+  destruct a; try (now apply Hexp); try (now apply Himp); try (now apply Hat).
+  - (* parent *) destruct t; try (now apply Hexp). destruct preds; [|now apply Hexp].
+    destruct f as [|g]; [unfold Ns in Hf; simpl in Hf; lia|]. reflexivity.
+  - (* self *) destruct t; try (now apply Hexp). destruct preds; [|now apply Hexp].
+    destruct f as [|g]; [unfold Ns in Hf; simpl in Hf; lia|]. reflexivity.
 Qed.
 
 Lemma fname_ok_false n : fname_ok false n = negb (is_node_type n).
@@ -611,7 +724,18 @@ Definition prim_head (T : list tok) : Prop := forall Z g,
 Definition Prim (e0 : expr) (T : list tok) : Prop := forall f Y, Npm (length T) <= f -> ppm f (T ++ Y) = Some (e0, Y).
 
 Definition steps_part (steps : list stp) : list tok :=
-  match steps with [] => [] | _ => TSlash :: sep_by TSlash rend_step steps end.
+  match steps with [] => [] | _ => lead steps end.
+
+(** the continuation of an absolute path or of a filter expression: [/steps] or [//steps'] *)
+Lemma lead_cases steps : steps <> [] ->
+  lead steps = TSlash :: join steps \/
+  (exists r, steps = dos_step :: r /\ r <> [] /\ lead steps = TSlashSlash :: join r).
+Proof.
+  intros Hne. unfold lead_steps. destruct steps as [|d [|x r]]; [congruence|now left|].
+  destruct (ab && is_dos d) eqn:Ed; [|now left]. right.
+  apply andb_prop in Ed. destruct Ed as [_ Ed]. apply is_dos_eq in Ed. subst d.
+  exists (x :: r). repeat split. discriminate.
+Qed.
 
 Lemma pp_filter e0 T preds steps : prim_head T -> Prim e0 T ->
   Forall (fun p => A p 0) preds -> Forall Qs steps ->
@@ -625,9 +749,13 @@ Proof.
   rewrite preds_ok; [|exact Hpreds| |unfold Np, Npr in *; lia].
   - destruct steps as [|s ss]; cbn [steps_part app].
     + apply fol_quiet in HX. destruct preds; destruct X as [|[] X]; try reflexivity; contradiction.
-    + cbn [steps_part length] in Hf.
-      rewrite relpath_ok; [destruct preds; reflexivity|discriminate|exact Hsteps|exact HX|unfold Np, Nr in *; lia].
-  - destruct steps as [|s ss]; cbn [steps_part app]; [apply quiet_no_lbr, (fol_quiet 8); exact HX|exact I].
+    + cbn [steps_part] in Hf.
+      destruct (lead_cases (s :: ss)) as [E|(r & Er & Hr & E)]; [discriminate| |]; rewrite E in *; cbn [app length] in *.
+      * rewrite (relpath_ok (length (s :: ss))); [destruct preds; reflexivity|lia|discriminate|exact Hsteps|exact HX|unfold Np, Nr in *; lia].
+      * rewrite Er in *. inversion Hsteps as [|? ? _ Hr']; subst.
+        rewrite (relpath_ok (length r)); [destruct preds; reflexivity|lia|exact Hr|exact Hr'|exact HX|unfold Np, Nr in *; lia].
+  - destruct steps as [|s ss]; cbn [steps_part app]; [apply quiet_no_lbr, (fol_quiet 8); exact HX|].
+    destruct (lead_head (s :: ss)) as (t0 & r0 & -> & [->| ->]); exact I.
 Qed.
 
 Lemma prim_head_lit s : prim_head [TLiteral s]. Proof. intros Z g. reflexivity. Qed.
@@ -661,16 +789,53 @@ Proof.
     (rewrite args_ok; [reflexivity|exact HA|exact HS|unfold Npm, Na in *; lia]).
 Qed.
 
-Lemma starts_step_sep steps X : steps <> [] -> starts_step false (sep_by TSlash rend_step steps ++ X) = true.
+Lemma starts_step_join steps X : steps <> [] -> starts_step false (join steps ++ X) = true.
 Proof.
-  destruct steps as [|s ss]; [congruence|intros _]. destruct (rend_step_head s) as (n & r & Hs).
-  destruct ss; [rewrite sep_by_one|rewrite sep_by_cons2]; rewrite Hs; reflexivity.
+  destruct steps as [|s ss]; [congruence|intros _]. destruct (join_head s ss) as (t & r & -> & Ht).
+  destruct t; try discriminate; reflexivity.
 Qed.
 
-Lemma pp_rel a t ps ss X g : pp (S g) (sep_by TSlash rend_step (SAxis a t ps :: ss) ++ X) =
-  match prl g (sep_by TSlash rend_step (SAxis a t ps :: ss) ++ X) with
+(** a token list that begins neither an absolute path nor a primary expression is a relative path *)
+Lemma pp_rel_gen ts g : match ts with TRoot :: _ | TSlash :: _ | TSlashSlash :: _ => False | _ => True end ->
+  starts_primary false ts = false ->
+  pp (S g) ts = match prl g ts with Some (steps, r) => Some (EPath false steps, r) | None => None end.
+Proof. intros H1 H2. rewrite pp_S. destruct ts as [|[] ts]; try contradiction; rewrite ?H2; reflexivity. Qed.
+
+Lemma step_not_primary a t ps W : child_ok W ->
+  match rend_step (SAxis a t ps) ++ W with TRoot :: _ | TSlash :: _ | TSlashSlash :: _ => False | _ => True end /\
+  starts_primary false (rend_step (SAxis a t ps) ++ W) = false.
+Proof.
+  intros HW.
+  assert (Hexp : forall R, match (TName (axis_name a) :: TColonColon :: R) ++ W with TRoot :: _ | TSlash :: _ | TSlashSlash :: _ => False | _ => True end /\
+            starts_primary false ((TName (axis_name a) :: TColonColon :: R) ++ W) = false) by (intros R; split; [exact I|reflexivity]).
+  assert (Himp : match (rend_test t ++ brackets (rend 0) ps) ++ W with TRoot :: _ | TSlash :: _ | TSlashSlash :: _ => False | _ => True end /\
+            starts_primary false ((rend_test t ++ brackets (rend 0) ps) ++ W) = false).
+  { rewrite <- app_assoc.
+    assert (HY : child_ok (brackets (rend 0) ps ++ W)) by (destruct ps; [exact HW|rewrite brackets_cons; exact I]).
+    destruct t; cbn [rend_test app]; try (split; [exact I|reflexivity]);
+      destruct (brackets (rend 0) ps ++ W) as [|[] Y]; simpl in HY; try contradiction; split; try exact I; reflexivity. }
+  cbn [Render.rend_step]. cbv zeta. destruct ab; [|apply Hexp].
+  destruct a; try apply Hexp; try exact Himp; try (split; [exact I|reflexivity]);
+    destruct t; try apply Hexp; destruct ps; try apply Hexp; split; try exact I; reflexivity.
+Qed.
+
+Lemma join_first_child_ok s ss X : fol 8 X = true ->
+  exists W, join (s :: ss) ++ X = rend_step s ++ W /\ child_ok W.
+Proof.
+  intros HX. assert (HXc : child_ok X) by (apply fol_quiet in HX; destruct X as [|[] X]; simpl in *; tauto).
+  destruct ss as [|d [|x ss]].
+  - rewrite join_one. eauto.
+  - rewrite join_two, <- app_assoc. cbn [app]. eexists. split; [reflexivity|exact I].
+  - rewrite join_three. destruct (ab && is_dos d); rewrite <- app_assoc; cbn [app]; eexists; (split; [reflexivity|exact I]).
+Qed.
+
+Lemma pp_rel a t ps ss X g : fol 8 X = true -> pp (S g) (join (SAxis a t ps :: ss) ++ X) =
+  match prl g (join (SAxis a t ps :: ss) ++ X) with
   | Some (steps, r) => Some (EPath false steps, r) | None => None end.
-Proof. destruct ss; [rewrite sep_by_one|rewrite sep_by_cons2]; cbn [rend_step app]; rewrite pp_S; reflexivity. Qed.
+Proof.
+  intros HX. destruct (join_first_child_ok (SAxis a t ps) ss X HX) as (W & E & HW). rewrite E.
+  destruct (step_not_primary a t ps W HW) as [H1 H2]. now apply pp_rel_gen.
+Qed.
 
 (** ** assembling [Good] *)
 Lemma good_from_U e : 6 <= level e -> U e -> B e -> D e -> E e -> Good e.
@@ -849,15 +1014,17 @@ Proof.
     apply good_path; [reflexivity|exact Hw| |apply E_not_simple; reflexivity].
     destruct abs.
     + destruct steps as [|s ss]; [exact B_bare_root|].
-      intros f X HX Hf. rewrite rend_unfold in *. cbv zeta in *. cbn [level bare_root Nat.ltb Nat.leb orb app length] in *.
+      intros f X HX Hf. rewrite rend_unfold in *. cbv zeta in *. cbn [level bare_root Nat.ltb Nat.leb orb] in *.
       destruct f as [|g]; [unfold Np in Hf; lia|]. rewrite pp_S.
-      rewrite starts_step_sep by discriminate.
-      rewrite relpath_ok; [reflexivity|discriminate|exact HQ|exact HX|unfold Np, Nr in *; lia].
+      destruct (lead_cases (s :: ss)) as [E|(r & Er & Hr & E)]; [discriminate| |]; rewrite E in *; cbn [app length] in *.
+      * rewrite starts_step_join by discriminate.
+        rewrite (relpath_ok (length (s :: ss))); [reflexivity|lia|discriminate|exact HQ|exact HX|unfold Np, Nr in *; lia].
+      * rewrite Er in *. inversion HQ as [|? ? _ HQr]; subst.
+        rewrite (relpath_ok (length r)); [reflexivity|lia|exact Hr|exact HQr|exact HX|unfold Np, Nr in *; lia].
     + simpl in Hshape. destruct steps as [|[a t ps|q args] ss]; try discriminate.
       intros f X HX Hf. rewrite rend_unfold in *. cbv zeta in *. cbn [level bare_root Nat.ltb Nat.leb orb] in *.
-      change ([] ++ sep_by TSlash rend_step (SAxis a t ps :: ss)) with (sep_by TSlash rend_step (SAxis a t ps :: ss)) in *.
-      destruct f as [|g]; [unfold Np in Hf; lia|]. rewrite pp_rel.
-      rewrite relpath_ok; [reflexivity|discriminate|exact HQ|exact HX|unfold Np, Nr in *; lia].
+      destruct f as [|g]; [unfold Np in Hf; lia|]. rewrite pp_rel by exact HX.
+      rewrite (relpath_ok (length (SAxis a t ps :: ss))); [reflexivity|lia|discriminate|exact HQ|exact HX|unfold Np, Nr in *; lia].
   - (* EFilter *) intros e0 preds steps He0 Hpreds Hsteps Hw. pose proof Hw as Hw'. simpl in Hw'.
     apply andb_prop in Hw'. destruct Hw' as [Hw' Hshape]. apply andb_prop in Hw'. destruct Hw' as [Hw' Hws].
     apply andb_prop in Hw'. destruct Hw' as [Hw0 Hwp].
@@ -890,11 +1057,22 @@ Proof.
   rewrite HA; [reflexivity|unfold Nb; lia].
 Qed.
 
-(** non-vacuity: a well-formed AST using every level, rendered and read back by the kernel *)
+End AB.
+
+(** abbreviated forms are their expansions: both renderings of one AST parse to the same tree *)
+Corollary abbreviations_are_expansions_all e : wf e = true ->
+  parse_tokens false (rend true 0 e) = parse_tokens false (rend false 0 e).
+Proof. intros H. now rewrite !parse_rend. Qed.
+
+(** non-vacuity: a well-formed AST using every level, with steps that abbreviate ([.], [..], [@],
+    implicit child, [//]), rendered both ways and read back by the kernel *)
 Example parse_rend_instance :
   let n1 := ENum (lit "1") in
-  let a := EPath false [SAxis Child (NTName (lit "a")) [ECmp CEq (ECall (None, lit "position") []) n1]] in
-  let e := EOr (EAnd (ECmp CLt (EArith ASub (EArith AMul (ENeg a) n1) n1) n1) (EUnion a (EFilter (EVar (None, lit "v")) [n1] [SAxis Parent NTNode []])))
+  let a := EPath false [SAxis Child (NTName (lit "a")) [ECmp CEq (ECall (None, lit "position") []) n1];
+                        SAxis DescendantOrSelf NTNode []; SAxis Attribute NTAny []; SAxis Parent NTNode []; SAxis Self NTNode []] in
+  let e := EOr (EAnd (ECmp CLt (EArith ASub (EArith AMul (ENeg a) n1) n1) n1)
+                     (EUnion a (EFilter (EVar (None, lit "v")) [n1] [SAxis DescendantOrSelf NTNode []; SAxis Child NTText []])))
                (EPath true []) in
-  wf e = true /\ parse_tokens false (rend 0 e) = Some e.
-Proof. split; reflexivity. Qed.
+  wf e = true /\ parse_tokens false (rend false 0 e) = Some e /\ parse_tokens false (rend true 0 e) = Some e /\
+  rend true 0 e <> rend false 0 e.
+Proof. repeat split; try reflexivity. vm_compute. discriminate. Qed.
